@@ -426,6 +426,11 @@ def rule_expected(ctx: Ctx, rule: str = "C01.expected"):
                     continue
                 seen_lines.add((e.line, which))
                 kw = {k.arg: k.value for k in e.term.keywords}
+                for k in e.term.keywords:  # `**{'expected_value': True}` coming through an inlined helper's **kwargs
+                    if k.arg is None and isinstance(k.value, ast.Dict):
+                        for dk, dv in zip(k.value.keys, k.value.values):
+                            if isinstance(dk, ast.Constant):
+                                kw[dk.value] = dv
                 ev_ = kw.get("expected_value")
                 want = which == "cond"
                 sites += 1
